@@ -181,21 +181,27 @@ class Ctx:
             raise InfraError("TLC reports %s on %s (%s); the as-repaired model must satisfy its invariants:\n%s"
                              % (r["inv"], r["module"], what, r["out"][-2500:]))
 
-    def validate_traces(self, sdir, module, cfg, traces, name="trace.ndjson", timeout=600, workers=1, dfs=False):
+    def validate_traces(self, sdir, module, cfg, traces, name="trace.ndjson", timeout=600, workers=1, dfs=False, reset=True):
         """traces: list of lists of event dicts.  They are concatenated with Reset events.
         Returns (accepted: bool, reached: int, total: int, r)."""
         path = os.path.join(sdir, name)
         n = 0
         with open(path, "w") as f:
             for tr in traces:
-                f.write(json.dumps({"a": "Reset"}) + "\n")
-                n += 1
+                if reset:
+                    f.write(json.dumps({"a": "Reset"}) + "\n")
+                    n += 1
                 for ev in tr:
                     f.write(json.dumps(ev) + "\n")
                     n += 1
         r = self.tlc(sdir, module, cfg, workers=workers, timeout=timeout, deadlock=False, dfs=dfs, count=False, check=False)
         m = re.findall(r'TRACE_REACHED", (\d+)', r["out"])
         reached = max([int(x) for x in m]) if m else (r["depth"] - 1)
+        if r["inv"]:
+            # position of the event that led into the violating state: the error trace's last value of l
+            ls = re.findall(r"/\\ l = (\d+)", r["out"])
+            if ls:
+                reached = max(0, int(ls[-1]) - 2)
         accepted = r["ok"] and reached >= n and not r["inv"]
         return accepted, reached, n, r
 
